@@ -34,6 +34,13 @@ round 3: Lean theorems rcos_core / angular_entry_error_rounded (rounded angular 
          geometric_distance_distribution, link_distance_distribution; oracles for the
          wrappers, region_indices (exact crossing number) and network-level histories
          that must leave the grid's cached distance matrices untouched (seeded C12-3)
+round 4: every generated case runs under ImplGuard: an exception raised by the code under
+         test is an oracle failure with a replay, not a harness error (seeded C12-5);
+         Model/GeoArea.lean (the grid as an object of any dimension, GeoGrid.distance,
+         GeoGrid.coord_sequence_from_rect_grid, connectivity weighted and total link
+         distances) in correspondence (requests eucobj2, cwd, tld, georect; angdist / eucld
+         answered by the object-level models); Euclidean grids of dimension 1-5 in every
+         suite, regular grids from 1-3 axes, one 130-node grid per distance suite
 """
 import contextlib
 import io
